@@ -466,6 +466,9 @@ def oracle_extract(spec: dict, B: Built, src: dict, inputs: list, outputs: list,
     if any(v is None or v not in top for v in ins + outs):
         return []
     if src["kind"] == "view":
+        order = [n["nid"] for n in root["nodes"] if n["nid"] in src["nodes"]]
+        if order != src["nodes"]:
+            return []          # a view listing its nodes out of topological order is an unsorted source
         # a view only knows the names of its own inputs/initializers/node inputs+outputs
         known = set(src["inputs"]) | set(src["inits"])
         for n in root["nodes"]:
@@ -949,7 +952,7 @@ def run(ck) -> None:
         groups.append(explore_graph(ck, entry["spec"], entry["cuts"]))
         ck.hist("inputs", "corpus")
     # 2. generated graphs
-    n_graphs = 60 if not ck.thorough else 900
+    n_graphs = 120 if not ck.thorough else 2500
     for i in range(n_graphs):
         mode = "numeric" if i % 2 == 0 else "structural"
         size = ck.rng.choice([0, 1, 1, 2])
